@@ -772,10 +772,12 @@ func (grp *Group) UpdateQuotaLimits(resourceLimits Resources) error {
 		grp.MemoryLimit = resourceLimits.Memory.Limit
 	}
 	if resourceLimits.CPU != nil {
-		grp.CPULimit = &GroupQuotaCPU{
-			Count:      resourceLimits.CPU.Count,
-			Percentage: resourceLimits.CPU.Percentage,
+		// keep any existing cpu-set, only the count and percentage change
+		if grp.CPULimit == nil {
+			grp.CPULimit = &GroupQuotaCPU{}
 		}
+		grp.CPULimit.Count = resourceLimits.CPU.Count
+		grp.CPULimit.Percentage = resourceLimits.CPU.Percentage
 	}
 	if resourceLimits.CPUSet != nil {
 		if grp.CPULimit == nil {
